@@ -5,8 +5,9 @@ from props import geom
 def clean(t):
     """tag-free, and quotes only when balanced within a row (a quoted segment never spans two parts)"""
     rows = []
-    for r in ''.join(c for c in t if c not in '{}\\\r').split('\n'):
+    for r in ''.join(c for c in t if c not in '{}\r').split('\n'):
         if r.count('"') % 2: r = r.replace('"', '')
+        if '"' in r: r = r.replace('\\', '')        # a backslash may escape a quote: keep backslashes only on rows without quotes
         rows.append(r)
     return '\n'.join(rows)
 
